@@ -577,6 +577,34 @@ class SimLock(object):
     self.release()
 
 
+class SimRLock(SimLock):
+  """ Re-entrant variant (threading.RLock). """
+
+  def __init__(self):
+    SimLock.__init__(self)
+    self.depth = 0
+    self._plain = _real_threading.RLock()
+
+  def acquire(self, blocking=True, timeout=-1):
+    if self._sim() and self.owner is self.sched.current and \
+       self.owner is not None:
+      self.depth += 1
+      return True
+    got = SimLock.acquire(self, blocking, timeout)
+    if got and self._sim():
+      self.depth = 1
+    return got
+
+  def release(self):
+    if self._sim() and self.depth > 1:
+      self.depth -= 1
+      return
+    self.depth = 0
+    SimLock.release(self)
+
+  __enter__ = acquire
+
+
 class SimEvent(object):
   """
   Faithful to threading.Event: set() wakes every thread waiting at that
@@ -637,5 +665,31 @@ def make_threading_shim():
     if not name.startswith("__"):
       setattr(shim, name, getattr(_real_threading, name))
   shim.Lock = SimLock
+  shim.RLock = SimRLock
   shim.Event = SimEvent
   return shim
+
+
+def shim_module_globals(module, shim):
+  """
+  Every synchronisation primitive a module of the code under test can reach
+  through its globals becomes simulator-owned: the ``threading`` module
+  itself, or names imported from it (Lock, RLock, Event).  Returns the names
+  replaced.
+  """
+  import _thread
+  done = []
+  for name, val in list(vars(module).items()):
+    if val is _real_threading:
+      setattr(module, name, shim)
+      done.append(name)
+    elif val is _real_threading.Lock or val is _thread.allocate_lock:
+      setattr(module, name, SimLock)
+      done.append(name)
+    elif val is _real_threading.RLock:
+      setattr(module, name, SimRLock)
+      done.append(name)
+    elif val is _real_threading.Event:
+      setattr(module, name, SimEvent)
+      done.append(name)
+  return done
